@@ -12,6 +12,7 @@ WrapInit == \E k \in 0..3 :
 WrapIds  == {TailId, TailId + 1, 0, 1, 2, 3}
 WrapNext == \/ \E o \in Objs : Register(RegObj(o))
             \/ \E id \in WrapIds : Lookup(id) \/ Remove(id)
+            \/ \E id \in WrapIds, o \in {1} : Search(100 + id * 3 + o) \/ Search(150 + id * 3 + o)
 WrapSpec == WrapInit /\ [][WrapNext]_vars
 EmitFull == (Len(hist') = MaxOps) => EmitAll
 =============================================================================
